@@ -837,13 +837,7 @@ impl Scaler for FreeTypeScaler<'_> {
                         // and works better than the one documented by Apple.
                         // https://github.com/freetype/freetype/blob/b1c90733ee6a04882b133101d61b12e352eeb290/src/truetype/ttgload.c#L1259
                         fn hypot(a: F26Dot6, b: F26Dot6) -> Fixed {
-                            let a = a.to_bits().abs();
-                            let b = b.to_bits().abs();
-                            Fixed::from_bits(if a > b {
-                                a + ((3 * b) >> 3)
-                            } else {
-                                b + ((3 * a) >> 3)
-                            })
+                            Fixed::from_bits(ft_hypot(a.to_bits(), b.to_bits()))
                         }
                         // FreeType uses a fixed point multiplication here.
                         x = (Fixed::from_bits(x) * hypot(xx, xy)).to_bits();
@@ -1268,6 +1262,69 @@ impl Scaler for HarfBuzzScaler<'_> {
     }
 }
 
+/// Length of the vector (x, y) in 16.16 fixed point.
+///
+/// This is FreeType's `FT_Hypot`, i.e. `FT_Vector_Length`: a CORDIC
+/// rotation onto the x axis followed by removal of the CORDIC gain. (Not
+/// the `FT_HYPOT` macro, which is a cheap approximation.)
+///
+/// See <https://gitlab.freedesktop.org/freetype/freetype/-/blob/57617782464411201ce7bbc93b086c1b4d7d84a5/src/base/fttrigon.c#L417>
+fn ft_hypot(x: i32, y: i32) -> i32 {
+    const TRIG_SCALE: u64 = 0xDBD95B16;
+    const TRIG_SAFE_MSB: i32 = 29;
+    const TRIG_MAX_ITERS: i32 = 23;
+    // Trivial cases
+    if x == 0 {
+        return y.wrapping_abs();
+    } else if y == 0 {
+        return x.wrapping_abs();
+    }
+    // ft_trig_prenorm: normalize so that the most significant bit of the
+    // larger magnitude is bit 29
+    let msb = 31 - (x.unsigned_abs() | y.unsigned_abs()).leading_zeros() as i32;
+    // FreeType computes with (64-bit) FT_Pos; the intermediate values can
+    // exceed 31 bits by the CORDIC gain
+    let (x, y) = (x as i64, y as i64);
+    let (mut x, mut y, shift) = if msb <= TRIG_SAFE_MSB {
+        let shift = TRIG_SAFE_MSB - msb;
+        (x << shift, y << shift, shift)
+    } else {
+        let shift = msb - TRIG_SAFE_MSB;
+        (x >> shift, y >> shift, -shift)
+    };
+    // ft_trig_pseudo_polarize: rotate into the [-PI/4, PI/4] sector...
+    if y > x {
+        if y > -x {
+            (x, y) = (y, -x);
+        } else {
+            (x, y) = (-x, -y);
+        }
+    } else if y < -x {
+        (x, y) = (-y, x);
+    }
+    // ... and then onto the x axis with CORDIC pseudo rotations
+    let mut b = 1;
+    for i in 1..TRIG_MAX_ITERS {
+        let (dx, dy) = ((y + b) >> i, (x + b) >> i);
+        if y > 0 {
+            x += dx;
+            y -= dy;
+        } else {
+            x -= dx;
+            y += dy;
+        }
+        b <<= 1;
+    }
+    // ft_trig_downscale: remove the CORDIC gain
+    let len = ((x.unsigned_abs() * TRIG_SCALE + 0x40000000) >> 32) as i64;
+    let len = if x < 0 { -len } else { len };
+    if shift > 0 {
+        ((len + (1 << (shift - 1))) >> shift) as i32
+    } else {
+        ((len as u32) << -shift) as i32
+    }
+}
+
 /// Magnitude of the vector (x, y)
 fn hypot(x: f32, y: f32) -> f32 {
     x.hypot(y)
@@ -1306,6 +1363,40 @@ mod tests {
                 .filter(|gid| scaler.outline(GlyphId::from(*gid)).unwrap().has_overlaps)
                 .collect::<Vec<_>>()
         );
+    }
+
+    /// Values produced by FreeType's `FT_Hypot` (2.12.1).
+    #[test]
+    fn ft_hypot_matches_freetype() {
+        const CASES: &[(i32, i32, i32)] = &[
+            (0, 0, 0),
+            (0, -5, 5),
+            (-7, 0, 7),
+            (1, 1, 1),
+            (3, 4, 5),
+            (-3, 4, 5),
+            (65536, 65536, 92682),
+            (32768, -492, 32772),
+            (26908, 131068, 133802),
+            (-65536, 41060, 77336),
+            (-57576, 131068, 143157),
+            (46341, 46341, 65536),
+            (46341, -46341, 65536),
+            (-111398, -25432, 114264),
+            (81519, 121892, 146639),
+            (65536, 1, 65536),
+            (1, 65536, 65536),
+            (131071, 131071, 185362),
+            (-131072, -131072, 185364),
+            (-131072, 131068, 185361),
+            (2147483647, 1, 2147483646),
+            (1073741824, 1073741824, 1518500246),
+            (-1073741824, 1073741823, 1518500244),
+            (12345678, -87654321, 88519465),
+        ];
+        for (x, y, expected) in CASES {
+            assert_eq!(ft_hypot(*x, *y), *expected, "ft_hypot({x}, {y})");
+        }
     }
 
     #[test]
